@@ -3,6 +3,7 @@ package main
 import (
 	"fmt"
 	"go/constant"
+	"go/token"
 	"go/types"
 	"strings"
 
@@ -972,12 +973,106 @@ func freshAppendRoot(v ssa.Value) string {
 				}
 			}
 			bad = NewTB().Of(v).String()
+		case *ssa.UnOp:
+			// the member list kept in a field of a record made by this call (a group = {key, rows} held in a local
+			// list): what the field holds is whatever this function stores into that field of such records
+			if fa, isFA := x.X.(*ssa.FieldAddr); isFA && x.Op == token.MUL && recordMadeHere(fa.X, 0) {
+				fn := x.Parent()
+				allInstrs(fn, func(_ *ssa.BasicBlock, in ssa.Instruction) {
+					st, ok := in.(*ssa.Store)
+					if !ok {
+						return
+					}
+					if fa2, ok := st.Addr.(*ssa.FieldAddr); ok && fa2.Field == fa.Field && types.Identical(fa2.X.Type(), fa.X.Type()) {
+						root(st.Val)
+					}
+				})
+				return
+			}
+			bad = NewTB().Of(v).String()
 		default:
 			bad = NewTB().Of(v).String()
 		}
 	}
 	root(v)
 	return bad
+}
+
+// recordMadeHere: the pointer denotes a record allocated by the function itself — a composite literal, or an element
+// of a local list that only ever receives such records.
+func recordMadeHere(p ssa.Value, depth int) bool {
+	if depth > 6 {
+		return false
+	}
+	switch x := p.(type) {
+	case *ssa.Alloc:
+		return true
+	case *ssa.Const:
+		return x.IsNil()
+	case *ssa.Phi:
+		for _, e := range x.Edges {
+			if e != ssa.Value(x) && !recordMadeHere(e, depth+1) {
+				return false
+			}
+		}
+		return true
+	case *ssa.UnOp:
+		if x.Op != token.MUL {
+			return false
+		}
+		if ia, ok := x.X.(*ssa.IndexAddr); ok {
+			return listOfRecordsMadeHere(ia.X, map[ssa.Value]bool{}, depth+1)
+		}
+	}
+	return false
+}
+
+func listOfRecordsMadeHere(s ssa.Value, seen map[ssa.Value]bool, depth int) bool {
+	if seen[s] {
+		return true
+	}
+	seen[s] = true
+	if depth > 8 {
+		return false
+	}
+	switch x := s.(type) {
+	case *ssa.MakeSlice:
+		return true
+	case *ssa.Const:
+		return x.IsNil()
+	case *ssa.Phi:
+		for _, e := range x.Edges {
+			if !listOfRecordsMadeHere(e, seen, depth+1) {
+				return false
+			}
+		}
+		return true
+	case *ssa.Slice:
+		if al, ok := x.X.(*ssa.Alloc); ok {
+			// the backing array of a literal or of an append's argument list: every element stored into it
+			okAll := true
+			if al.Referrers() != nil {
+				for _, r := range *al.Referrers() {
+					ia, ok := r.(*ssa.IndexAddr)
+					if !ok || ia.Referrers() == nil {
+						continue
+					}
+					for _, u := range *ia.Referrers() {
+						if st, ok := u.(*ssa.Store); ok && st.Addr == ssa.Value(ia) && !recordMadeHere(st.Val, depth+1) {
+							okAll = false
+						}
+					}
+				}
+			}
+			return okAll
+		}
+		return listOfRecordsMadeHere(x.X, seen, depth+1)
+	case *ssa.Call:
+		if bi, ok := x.Call.Value.(*ssa.Builtin); ok && bi.Name() == "append" && len(x.Call.Args) == 2 {
+			return listOfRecordsMadeHere(x.Call.Args[0], seen, depth+1) && listOfRecordsMadeHere(x.Call.Args[1], seen, depth+1)
+		}
+	}
+	return false
 }
 
 // ruleStageKeptFresh: the stages of the pipeline collect their output in storage of their own.
@@ -1044,4 +1139,38 @@ func init() {
 	// built-in functions keep no package-level state: that is also why ASYNC.f(x) equals f(x) and concurrent queries do not interfere
 	register("C14", ruleC18Pure)
 	register("C13", ruleC18Pure)
+}
+
+// Cross registrations found necessary by mutation round 5 (combinations of features: the necessary condition lived
+// only in the rule set of the other feature's property).
+func init() {
+	// a wrapper value (*float64, NeutalString, ColumnName) that reaches a comparison is compared by its address text:
+	// IN / NOT IN lists and every operand of Compare are plain values
+	register("C01", ruleC12SinksUnwrapped)
+	register("C15", ruleC12SinksUnwrapped)
+	// the option rewriters hand the parser the query the caller wrote: a quote state lost in them changes which rows
+	// WHERE keeps and what a select item computes, and which selector steps `[...]` stand for
+	for _, p := range []string{"C01", "C02", "C09"} {
+		register(p, ruleC17QuoteStates, ruleC17TerminationByte, ruleC17OptionOrder, ruleC17EscapeSkip, ruleC17ByteCopy)
+	}
+	// the sides of a join are built by the FROM builder and its alias wrapper (fresh rows, one wrapper per row)
+	register("C04", ruleC07FromArms, ruleC07Alias)
+	// the text of a key is the decimal text of the number, whatever its magnitude
+	register("C04", ruleC18TextOf)
+	register("C15", ruleC18TextOf)
+	// a CTE body is evaluated once: its ASYNC/ONCE calls run once, its SETVARs run once
+	register("C14", ruleC07CteMemo)
+	register("C20", ruleC07CteMemo)
+	// HAVING, MIN/MAX and the comparison operators order values through compare.Compare: every numeric kind is a number
+	register("C03", ruleC15Dispatch)
+	register("C01", ruleC15Dispatch)
+	// results do not depend on what the process evaluated before, nor on unresolved placeholders
+	register("C12", ruleC18Pure, ruleResolveBeforeCompare, ruleC08CopyFields)
+	// a sanitized argument arrives as a literal node: the dispatcher hands it to the literal evaluator and returns that
+	// value (no memo keyed by the bare text, which forgets the literal's kind); under PostgresEscapingDialect the quoted
+	// argument passes through the quote rewriter byte for byte
+	register("C16", ruleExprDispatch, ruleC17QuoteStates, ruleC17TerminationByte, ruleC17EscapeSkip, ruleC17ByteCopy)
+	// "an error for an index outside the array", "rejects a wrong argument count with an error": the error a built-in
+	// returns has to leave the call strategies of FunExpr as an error, with or without an error handler installed
+	register("C18", ruleC19NoDrop)
 }
